@@ -17,6 +17,8 @@ import (
 	"math"
 	"math/big"
 	"reflect"
+	"strconv"
+	"strings"
 
 	"github.com/hprose/hprose-golang/v3/internal/convert"
 	"github.com/modern-go/reflect2"
@@ -34,7 +36,31 @@ var (
 // A number written with an exponent is a few bytes of text, and math/big builds the exact value in full:
 // "1e100000000" (11 bytes) is a 332-million-bit integer.  An exact destination accepts what any peer can mean
 // (float64 ends at 2^1024, decimal128 at 10^6144) and refuses the text beyond.
-const maxBigIntBits = 1 << 16
+const (
+	maxBigIntBits   = 1 << 16 // binary digits of a float text converted to *big.Int
+	maxTextExponent = 1 << 14 // exponent as written in a text converted to *big.Rat (10^maxTextExponent < 2^maxBigIntBits)
+)
+
+// exponentTooLarge reports whether s ends in an exponent (e, E, p or P followed by a signed decimal number)
+// whose magnitude exceeds maxTextExponent.
+func exponentTooLarge(s string) bool {
+	marks, m := "eEpP", s
+	if len(m) > 0 && (m[0] == '+' || m[0] == '-') {
+		m = m[1:]
+	}
+	if len(m) > 1 && m[0] == '0' && (m[1] == 'x' || m[1] == 'X') {
+		marks = "pP" // e is a digit of a hexadecimal mantissa
+	}
+	i := strings.LastIndexAny(s, marks)
+	if i < 0 {
+		return false
+	}
+	n, err := strconv.ParseInt(s[i+1:], 10, 64)
+	if err != nil {
+		return false // not a number (SetString refuses the text) or beyond int64 (SetString refuses that too)
+	}
+	return n > maxTextExponent || n < -maxTextExponent
+}
 
 func (dec *Decoder) stringToBigInt(s string, t reflect.Type) *big.Int {
 	if bi, ok := new(big.Int).SetString(s, 10); ok {
@@ -61,8 +87,11 @@ func (dec *Decoder) stringToBigFloat(s string, t reflect.Type) *big.Float {
 }
 
 func (dec *Decoder) stringToBigRat(s string, t reflect.Type) *big.Rat {
-	if bf, ok := new(big.Rat).SetString(s); ok {
-		return bf
+	// Rat.SetString builds 10^exponent in full (it stops by itself only beyond 10^6: megabytes for a dozen bytes)
+	if !exponentTooLarge(s) {
+		if bf, ok := new(big.Rat).SetString(s); ok {
+			return bf
+		}
 	}
 	dec.decodeStringError(s, t.String())
 	return nil
